@@ -1460,6 +1460,12 @@ class TransferManager(BaseManager):
                     # abort waiting for the local file to be removed): a task
                     # started now would outlive that transition
                     return
+                elif transfer._transfer_task is not None and not transfer._transfer_task.done():
+                    # An earlier offer is still being handled (the state can be
+                    # back to QUEUED meanwhile: a failing attempt to queue the
+                    # transfer remotely re-queues it). Never replace a task that
+                    # is still in flight: it is the only handle to cancel it
+                    return
                 else:
                     # All good to download
 
